@@ -240,14 +240,28 @@ func run(args []string) error {
 		hist.Add(fmt.Sprintf("mono:ok1=%v,ok2=%v", e1 == nil, e2 == nil))
 	}
 
+	var chain, supply []string
+	if replayGroup == "" {
+		nh := n / 250
+		if nh < 2 {
+			nh = 2
+		}
+		var err error
+		chain, supply, err = runChains(r, o, nh, 8, hist, caseJSON)
+		if err != nil {
+			return err
+		}
+	}
 	tyTx := "(Z * list uxin * list txout * error * (res error * res error * res (Z * error)) * res verdict)%type"
 	data := hrs.DefChunked("cases_tx", tyTx, tx) +
 		hrs.DefChunked("cases_block", "(Z * list uxin * list txout * error * res verdict)%type", block) +
 		hrs.DefChunked("cases_witness", "(Z * list uxin * list txout * res error * res verdict)%type", wit) +
-		hrs.DefChunked("cases_mono", "(uxin * Z * Z * res (Z * error) * res (Z * error))%type", mono)
+		hrs.DefChunked("cases_mono", "(uxin * Z * Z * res (Z * error) * res (Z * error))%type", mono) +
+		hrs.DefChunked("cases_chain", "(bool * Z * list (list uxin * list txout * bool) * Z)%type", chain) +
+		hrs.DefChunked("cases_supply", "(Z * list uxin * list uxin)%type", supply)
 	o.Raw(st.Table())
 	o.Raw(data)
-	o.Side["rule"] = "transactions as (head time, inputs: creation time/coins/hours/owner, outputs: coins/hours) built as real coin.Transaction + coin.UxArray (unsigned for the function-level and single-transaction checks, fully signed for the block-level check); inputs aimed at each overflow branch of CoinHours +-2, input sums at 2^64+-2, output hours at inputs' hours +-1, at the required fee +-1, true sums wrapping 2^64, coins balanced / +-1 / near 2^64; a case is non-trivial when it has inputs and outputs (mono: t1 >= creation time and t2 > t1); distinct by input tuple"
+	o.Side["rule"] = "transactions as (head time, inputs: creation time/coins/hours/owner, outputs: coins/hours) built as real coin.Transaction + coin.UxArray (unsigned for the function-level and single-transaction checks, fully signed for the block-level check); inputs aimed at each overflow branch of CoinHours +-2, input sums at 2^64+-2, output hours at inputs' hours +-1, at the required fee +-1, true sums wrapping 2^64, coins balanced / +-1 / near 2^64; a case is non-trivial when it has inputs and outputs (mono: t1 >= creation time and t2 > t1); distinct by input tuple. Node level (groups chain, supply): real visor.Visor on a bolt file as arbitrating publisher and as follower, 8 publisher-signed blocks per history through Visor.ExecuteSignedBlock mixing valid, hours-creating (+1,+2,+1000,+1e9) and coin-unbalanced transactions; the head block is re-read from the database and the unspent set dumped after every block"
 	o.Side["distribution"] = hist.Sorted()
 	o.Side["samples"] = samples
 	o.Side["cases"] = caseJSON
